@@ -1576,7 +1576,7 @@ SPEC = PropertySpec(
         "SpectralMixtureKernel *_prior arguments (logged as not implemented), MultitaskGaussianLikelihood(rank=0, task_prior) (documented error)",
     ],
     subchecks=[
-        Subcheck("constraint.transform", run_constraint, strategy=constraint_cases, quick=8000, thorough=200000, min_shard=200),
+        Subcheck("constraint.transform", run_constraint, strategy=constraint_cases, quick=4000, thorough=200000, min_shard=200),
         Subcheck("setter.roundtrip", run_setter, strategy=setter_cases, enumerate=enumerate_setter_pairs, quick=5000, thorough=100000,
                  min_shard=100, exhaustive_note="every discovered (module, property) pair x batch shape {(), (2,)} x {float, full tensor} once"),
         Subcheck("history.bounds", run_history, strategy=history_cases, quick=1500, thorough=40000, min_shard=50),
